@@ -430,6 +430,7 @@ func runC02Emphasis(r *core.Run) {
 		{"emphasis-runs", []string{"*", "_", "a", " ", "."}, 9, 10},
 		{"inline-runs", []string{"*", "_", "[", "]", "(u)", "!", "`", "a", " ", "\\"}, 6, 7},
 		{"bracket-runs", []string{"*", "[", "]", "(u)", "![", "`", "a"}, 7, 8},
+		{"ampersand-runs", []string{"&", "&amp;", "amp;", "a", "\\", "*", "`", "[", "](u)"}, 6, 7},
 		{"multi-line-runs", []string{"\n", "`", "``", "*", "[", "](u)", "a", "_", " "}, 6, 7},
 	} {
 		wordsSub(r, a.name, fmt.Sprintf("as the content of an ATX heading and, where the line is a paragraph, alone: output must equal <h1>/<p> around the HTML an independent definitional implementation of CommonMark 6.1-6.4 (code spans, backslash escapes, emphasis, inline links, images) prescribes (validated on %d official examples); words with a leading or trailing blank (or, in multi-line words, a line that is empty, starts or ends with a blank or would not be a paragraph line on its own) are out of scope and skipped; evaluations = words visited; distinct = output digest", validated),
